@@ -29,18 +29,21 @@ func (a Arch) MarshalControl() (string, error) {
 }
 
 func (a Arch) String() string {
-	/* ABI-OS-CPU -- gnu-linux-amd64 */
-	els := []string{}
-	if a.ABI != "any" && a.ABI != "all" && a.ABI != "gnu" && a.ABI != "" {
-		els = append(els, a.ABI)
+	/* ABI-OS-CPU -- gnu-linux-amd64; pick the shortest name that parses
+	 * back to exactly this triple */
+	short := !strings.Contains(a.CPU, "-")
+	switch {
+	case a.ABI == a.OS && a.OS == a.CPU && (a.CPU == "any" || a.CPU == "all"):
+		/* `any` and `all` stand for the whole triple */
+		return a.CPU
+	case short && a.ABI == "gnu" && a.OS == "linux" && a.CPU != "any" && a.CPU != "all":
+		/* a bare CPU is implicitly gnu-linux-CPU */
+		return a.CPU
+	case short && a.ABI == "any":
+		/* OS-CPU leaves the ABI unconstrained */
+		return a.OS + "-" + a.CPU
 	}
-
-	if a.OS != "any" && a.OS != "all" && a.OS != "linux" {
-		els = append(els, a.OS)
-	}
-
-	els = append(els, a.CPU)
-	return strings.Join(els, "-")
+	return strings.Join([]string{a.ABI, a.OS, a.CPU}, "-")
 }
 
 func (set ArchSet) String() string {
